@@ -33,6 +33,7 @@ def value_menu(rng):
     menu = [
         ("summary", rng.choice(["Meeting", "a;b,c", "line1\nline2", "é€😀", "", "x" * 100]), "text"),
         ("description", "some text " + "y" * rng.randrange(0, 120), "text"),
+        ("description", "é" * rng.randrange(0, 40) + "x" * rng.randrange(0, 80) + rng.choice(["\ufeff", "\u2028", "€", "\U0001F600"]) + "tail", "text"),
         ("comment", rng.choice(["c1", "c2", "c,3"]), "text"), ("comment", ["c4", "c;5"], "text"),
         ("attendee", [vCalAddress("mailto:l1@example.com"), vCalAddress("mailto:l2@example.com")], "caladdress"),
         ("x-custom", "v", "text"), ("location", "Zürich", "text"),
